@@ -104,15 +104,19 @@ func ToAuthorizationHeader(toks ...[]byte) string {
 }
 
 func encodeTokens(toks ...[]byte) string {
-	ret := ""
+	// a builder, not ret += ...: appending to a string copies it every time,
+	// which is quadratic in the number of tokens
+	var ret strings.Builder
 	for i, tok := range toks {
 		if i > 0 {
-			ret += ","
+			ret.WriteString(",")
 		}
-		ret += fmt.Sprintf("%s_%s", v2TokenLabel, base64.StdEncoding.EncodeToString(tok))
+		ret.WriteString(v2TokenLabel)
+		ret.WriteString("_")
+		ret.WriteString(base64.StdEncoding.EncodeToString(tok))
 	}
 
-	return ret
+	return ret.String()
 }
 
 // stripAuthorizationScheme strips any FlyV1/Bearer schemes from token header.
